@@ -56,6 +56,14 @@ CHECKS = {
    technique="bounded exhaustive enumeration of handle open/clone/drop programs and of version-marker contents on the real code, plus controlled-scheduler exploration (all interleavings up to a preemption bound) of handles dropped while fjall's own workers run",
    text="Every program up to the stated depth over cloning database handles, opening/cloning keyspace handles, writing, queueing background work, snapshots, dropping any handle and attempting a second open as each of the three database types is executed for each database type: while a handle lives the second open must return Locked and leave the directory hash unchanged; after the last drop every type must open and show the last write (with real worker threads: no worker thread may remain). Every marker byte string up to the stated length over a boundary alphabet, all version bytes, a reduced set on databases with tables and with a rotated-away first journal, and the v1/v2 fixtures must be refused unmodified unless they start with the current header. Under the controlled scheduler the last handle drop must return only after every file of the directory is closed, in every schedule up to the preemption bound.",
    note="Snapshots hold no database handle. Extra bytes after a correct header are outside the property. Four genuine defects found here were repaired (see known_findings.txt, fixed: lines)."),
+ "C05": dict(level="model_checking", engine="E1-seqcheck (views) + E3-schedcheck", design="§3, §5, §6 C05",
+   technique="bounded exhaustive enumeration of programs interleaving writes and maintenance with view lifetimes on the real code (every live view compared with a frozen model clone after every step), plus controlled-scheduler exploration of readers against writers and workers",
+   text="Every program up to the stated depth over writes, removes, clear, ingestion, rotation, every queued worker message, major compaction and view operations (Database::snapshot and clones, Keyspace::iter/range/prefix and the snapshot variants advanced from either end at any later time, write transactions of both kinds including two opened at one instant, commit, close in any order) runs on the real code; after every step every live view's complete observation must equal the model frozen at its creation (plus its own writes) and iterators must yield exactly the frozen range; the snapshot tracker is monitored and, when a live instant is no longer protected, a garbage-collecting continuation is run and the views observed again (a read must neither change nor fail). Under the controlled scheduler a reader reads twice through one snapshot while a writer, rotations and fjall's own worker run, for every schedule up to the preemption bound.",
+   note="At most 3 simultaneous views. Two genuine defects found here were repaired (fixed: lines in known_findings.txt)."),
+ "C08": dict(level="model_checking", engine="E1-seqcheck (transactions) + E3-schedcheck", design="§3, §5, §6 C08",
+   technique="bounded exhaustive enumeration of in-transaction programs on both transactional databases against an overlay model, plus controlled-scheduler exploration (all interleavings up to a preemption bound) of competing increment transactions",
+   text="For both transactional databases every program up to the stated depth of in-transaction inserts, removes, take, fetch_update and update_fetch (closures keep/change/delete) on overlapping keys of two keyspaces over a non-empty snapshot, ending in commit, rollback or drop, runs on the real code; after every step every read method inside the transaction equals snapshot+own writes, return values are the documented ones, and outside nothing is visible; after the ending the outside view (and a reopen) shows exactly the final write per key or no change. Competing read-modify-write transactions (explicit and via the keyspace helpers) are run under every schedule up to the preemption bound: no committed increment may be lost and single-writer critical sections never overlap.",
+   note="One open transaction in the sequential part; serializability of interleaved optimistic transactions is C07's."),
 }
 
 NOT_YET = {
